@@ -251,3 +251,63 @@ let string_of_feed (r : feed_result) : string =
   | OverFull rem -> "O:" ^ hex_of_bytes rem
   | DeserError rem -> "D:" ^ hex_of_bytes rem
   | Success (v, rem) -> "S:" ^ string_of_value v ^ ":" ^ hex_of_bytes rem
+
+(* ---------- schema trees (text form shared with harness/src/stree.rs) ---------- *)
+let prim_of_string = function
+  | "Bool" -> PBool | "I8" -> PI8 | "U8" -> PU8 | "I16" -> PI16 | "I32" -> PI32 | "I64" -> PI64 | "I128" -> PI128
+  | "U16" -> PU16 | "U32" -> PU32 | "U64" -> PU64 | "U128" -> PU128 | "Usize" -> PUsize | "Isize" -> PIsize
+  | "F32" -> PF32 | "F64" -> PF64 | "Char" -> PChar | "String" -> PString | "ByteArray" -> PByteArray
+  | "Unit" -> PUnit | "Schema" -> PSchema
+  | s -> failwith ("bad prim " ^ s)
+let string_of_prim = function
+  | PBool -> "Bool" | PI8 -> "I8" | PU8 -> "U8" | PI16 -> "I16" | PI32 -> "I32" | PI64 -> "I64" | PI128 -> "I128"
+  | PU16 -> "U16" | PU32 -> "U32" | PU64 -> "U64" | PU128 -> "U128" | PUsize -> "Usize" | PIsize -> "Isize"
+  | PF32 -> "F32" | PF64 -> "F64" | PChar -> "Char" | PString -> "String" | PByteArray -> "ByteArray"
+  | PUnit -> "Unit" | PSchema -> "Schema"
+
+let name_of_atom (s : string) : n list =
+  if String.length s = 0 || s.[0] <> 'x' then failwith ("bad name " ^ s) else bytes_of_hex s
+
+let rec schema_of_sexp (e : sexp) : schema =
+  match e with
+  | A p -> SPrim (prim_of_string p)
+  | L [A "opt"; t] -> SOption (schema_of_sexp t)
+  | L [A "seq"; t] -> SSeq (schema_of_sexp t)
+  | L (A "tup" :: ts) -> STuple (List.map schema_of_sexp ts)
+  | L [A "map"; k; v] -> SMap (schema_of_sexp k, schema_of_sexp v)
+  | L [A "struct"; A n; d] -> let k, fs = data_of_sexp d in SStruct (name_of_atom n, k, fs)
+  | L (A "enum" :: A n :: vs) ->
+    SEnum (name_of_atom n,
+           List.map (function
+               | L [A vn; d] -> let k, fs = data_of_sexp d in ((name_of_atom vn, k), fs)
+               | _ -> failwith "bad variant") vs)
+  | _ -> failwith "bad schema"
+and data_of_sexp (e : sexp) : dkind * (n list * schema) list =
+  match e with
+  | A "U" -> (DUnit, [])
+  | L [A "N"; t] -> (DNewtype, [([], schema_of_sexp t)])
+  | L (A "T" :: ts) -> (DTuple, List.map (fun t -> ([], schema_of_sexp t)) ts)
+  | L (A "S" :: fs) ->
+    (DStruct, List.map (function L [A n; t] -> (name_of_atom n, schema_of_sexp t) | _ -> failwith "bad field") fs)
+  | _ -> failwith "bad data"
+
+let rec string_of_schema (s : schema) : string =
+  match s with
+  | SPrim p -> string_of_prim p
+  | SOption t -> "(opt " ^ string_of_schema t ^ ")"
+  | SSeq t -> "(seq " ^ string_of_schema t ^ ")"
+  | STuple ts -> "(tup" ^ String.concat "" (List.map (fun t -> " " ^ string_of_schema t) ts) ^ ")"
+  | SMap (k, v) -> "(map " ^ string_of_schema k ^ " " ^ string_of_schema v ^ ")"
+  | SStruct (n, k, fs) -> "(struct " ^ hex_of_bytes n ^ " " ^ string_of_data k fs ^ ")"
+  | SEnum (n, vs) ->
+    "(enum " ^ hex_of_bytes n
+    ^ String.concat "" (List.map (fun ((vn, k), fs) -> " (" ^ hex_of_bytes vn ^ " " ^ string_of_data k fs ^ ")") vs)
+    ^ ")"
+and string_of_data k fs =
+  match k, fs with
+  | DUnit, _ -> "U"
+  | DNewtype, [ (_, t) ] -> "(N " ^ string_of_schema t ^ ")"
+  | DNewtype, _ -> "(N?)"
+  | DTuple, _ -> "(T" ^ String.concat "" (List.map (fun (_, t) -> " " ^ string_of_schema t) fs) ^ ")"
+  | DStruct, _ ->
+    "(S" ^ String.concat "" (List.map (fun (n, t) -> " (" ^ hex_of_bytes n ^ " " ^ string_of_schema t ^ ")") fs) ^ ")"
